@@ -81,6 +81,10 @@ def detect_encoding(fname: PathOrIO, *, low_confidence: float = 0.9) -> str:
         with open(fname, "rb") as f:
             data = f.read()
 
+    if data.isascii():
+        # nothing to detect, and `+1E4 ... -` looks like a utf-7 shift sequence to chardet
+        return "utf-8"
+
     result = chardet.detect(data)
     encoding = result["encoding"] or "utf-8"
     if result["confidence"] < low_confidence:
